@@ -22,6 +22,7 @@ CONTRACT_MODULES = [
     "contracts.tracker",
     "contracts.hytera",
     "contracts.motorola",
+    "contracts.mbxml_doc",
 ]
 
 TRUSTED_BASE = [
@@ -132,6 +133,12 @@ PROPS = {
         explanation="contracts HDAP.as_bytes, HDAP.get_hdap_checksum, HRNP.as_bytes, HRNP.verify_checksum, HSTRP.as_bytes; bounded: GPSData.as_bytes, TextMessageProtocol.text_as_str",
         bounded_parts=["GPSData.as_bytes / from_bytes: literal values on the representable grid", "TextMessageProtocol text given as str: 8 seeded texts"],
         assumptions=["an HSTRP option flag is set exactly when the option list is not empty (in-range precondition)"],
+    ),
+    "C15": dict(
+        level_text="Per-function contracts, proved for all symbolic token values per literal token sequence: a buffer composed by an independent serialiser (canonical form, written from the format description) of 1..3 LRRP documents over all 18 LRRP document ids that carry tokens, each with a literal sequence of 0..12 implemented element tokens (request-id opaque of 0..9 (T: ..200) octets, one-octet request-id, uintvars of 1..5 septets, uint8, valueless elements, info-time, point-2d, the three result forms with serialised / implied result-code attribute and 0..3 (T: ..130) content octets) with symbolic values, an inline constant table of 0..5 symbolic octets or the inherited-table marker: MBXML.from_bytes returns one document per announced length with exactly these document ids, token ids, values, attribute values and constant tables, and MBXML.as_bytes gives the identical octets. A document assembled through get_token (element by id, attribute by id / name, symbolic values) serialises to octets that parse back into the same token ids and values and serialise identically.",
+        level_note="Bounded (native enumeration, never counted as proved): float-valued tokens (ufloatvar / sfloatvar elements, circle-2d radius, point-3d altitude) over 12 / 15 literal values with one-septet fractions, also as two documents in one buffer. Token sequences are literal: every document id and every token at least once plus 40 (T: 1500) seeded sequences. MBXML.write_uintvar enters by its C14 contract (stub): the real function goes through bin() - one path per bit length. Unimplemented tokens (request-id from the constant table 0x24, circle-3d, point-3d with accuracy) are outside the statement.",
+        explanation="contracts MBXML.from_bytes, MBXMLDocument.get_token, MBXML.uintvar (C14, provider of the write_uintvar stub); bounded: MBXML.float_tokens",
+        bounded_parts=["float-valued tokens: literal values with one-septet fractions"],
     ),
     "C16": dict(
         level_text="Per-function contracts, proved for all symbolic contents per literal length: TMS service availability (with / without capability header), acknowledgement (with / without acknowledged sequence number) and simple text message (sequence number 0..127 symbolic, encoding none / UCS-2, message and address symbolic octets) built from fields with all first-header flags symbolic: leading length = octets that follow, first header octet, address field, optional header = 1 or 2 octets exactly as the sequence number / encoding require with the 5 + 2 bit split, message placement; from_bytes gives equal fields (incl. every header flag) and the same octets again. ARS acknowledgement (refresh time 1..127 / failure reason / no second header), status query, de-registration notice with all flags symbolic, with and without CSBK trailer: leading length, __len__, first header octet, trailer exactly when flagged, second header octet, fields, re-serialisation.",
